@@ -2,7 +2,7 @@
    jettison v0.7.4 (MarshalOpts(x, NoHTMLEscaping()): map keys sorted by their
    escaped text, double quote, backslash and C0 controls escaped (\n \r \t short, the others
    \u00xx), U+2028/9 escaped, every invalid UTF-8 byte replaced by the six
-   characters �, '<' '>' '&' and DEL left alone; ints in decimal; time as
+   characters backslash-ufffd, '<' '>' '&' and DEL left alone; ints in decimal; time as
    RFC 3339 with nanoseconds (jettison's own appendRFC3339Time); []byte as
    base64; floats: the text is an oracle [ff] (strconv shortest round-trip
    printing is not modelled)),
@@ -34,13 +34,19 @@ Definition esc_ascii (c : N) : bytes :=
 Definition is_ls (u : bytes) : bool := bytes_eqb u [226; 128; 168]%N.   (* U+2028 *)
 Definition is_ps (u : bytes) : bool := bytes_eqb u [226; 128; 169]%N.   (* U+2029 *)
 
+(* the six characters of the escapes for U+FFFD, U+2028, U+2029:
+   backslash u f f f d, backslash u 2 0 2 8, backslash u 2 0 2 9 *)
+Definition esc_fffd : bytes := [92; 117; 102; 102; 102; 100]%N.
+Definition esc_2028 : bytes := [92; 117; 50; 48; 50; 56]%N.
+Definition esc_2029 : bytes := [92; 117; 50; 48; 50; 57]%N.
+
 Definition esc_unit (u : unit8) : bytes :=
   match u with
-  | UBad _ => bs "�"
+  | UBad _ => esc_fffd
   | UOk w =>
       match w with
       | [c] => esc_ascii c
-      | _ => if is_ls w then bs " " else if is_ps w then bs " " else w
+      | _ => if is_ls w then esc_2028 else if is_ps w then esc_2029 else w
       end
   end.
 
@@ -556,6 +562,16 @@ Fixpoint value_markup (v : value) : nat :=
   | VArr l => fold_right (fun x n => value_markup x + n)%nat O l
   | VObj m => fold_right (fun kv n => count_markup (fst kv) + value_markup (snd kv) + n)%nat O m
   | _ => O
+  end.
+
+(* no two keys of one object have the same escaped text (true whenever the
+   keys are distinct valid UTF-8 strings; can fail for invalid UTF-8 keys) *)
+Fixpoint esc_keys_unique (v : value) : bool :=
+  match v with
+  | VArr l => forallb esc_keys_unique l
+  | VObj m => nodup_keys (map (fun kv => esc_string (fst kv)) m)
+              && forallb (fun kv => esc_keys_unique (snd kv)) m
+  | _ => true
   end.
 
 Fixpoint strings_valid (v : value) : bool :=
